@@ -99,6 +99,8 @@ func (e *ME) Src() string {
 		return "[" + strings.Join(as, ", ") + "]"
 	case "in":
 		return "(" + e.L.Src() + " in " + e.R.Src() + ")"
+	case "loopfield": // a field of the forloop the expression stands in
+		return "forloop." + e.S
 	}
 	panic("ME.Src: " + e.K)
 }
@@ -501,6 +503,9 @@ func (ip *mInterp) eval(s *mScope, e *ME) any {
 		l, _ := ip.eval(s, e.L).(int)
 		r, _ := ip.eval(s, e.R).(int)
 		return l - r
+	case "loopfield":
+		li, _ := ip.lookup(s, "forloop").(*mLoop)
+		return mLoopField(li, e.S)
 	case "arr":
 		items := []any{}
 		for i := range e.Args {
@@ -709,7 +714,9 @@ func (ip *mInterp) run(ns []MNode, s *mScope, sb *strings.Builder) *mErr {
 				li.parent = p
 			}
 			c.priv["forloop"] = li
-			items := mIterate(ip.eval(c, n.E), n.Rev, n.Sorted)
+			// what to iterate over is an argument of the tag: it is evaluated where the tag stands
+			// (a forloop named there is the ENCLOSING loop's, the new one only exists in the body)
+			items := mIterate(ip.eval(s, n.E), n.Rev, n.Sorted)
 			if len(items) == 0 {
 				if n.HasAlt {
 					if e := ip.run(n.Alt, c, sb); e != nil {
